@@ -42,13 +42,14 @@ OrderComplete   == LET s == Order(a, b, <<>>, AllNames) IN
 OrderSafe       == a # b => Transforms(a, b, Order(a, b, <<>>, AllNames))
 (* sanity of the applier itself: a wrong order (children after a removed parent) must fail somewhere *)
 
-TSeq == SetToSeq(Trees)
-NPairs == Len(TSeq) * Len(TSeq)
-Cases == [c \in 1..(((NPairs - 1) \div Stride) + 1) |->
+Export ==
+    /\ TLCGet("stats").generated >= 0
+    /\ LET ts == SetToSeq(Trees) n == Len(ts) IN
+       JsonSerialize(IOEnv.OUT_FILE,
+         [c \in 1..(((n * n - 1) \div Stride) + 1) |->
             LET k == (c - 1) * Stride + 1
-                i == ((k - 1) \div Len(TSeq)) + 1 j == ((k - 1) % Len(TSeq)) + 1 IN
-            [a |-> SetToSeq(TSeq[i]), b |-> SetToSeq(TSeq[j])]]
-Export == TLCGet("stats").generated >= 0 /\ JsonSerialize(IOEnv.OUT_FILE, Cases)
+                i == ((k - 1) \div n) + 1 j == ((k - 1) % n) + 1 IN
+            [a |-> SetToSeq(ts[i]), b |-> SetToSeq(ts[j])]])
 N1 == <<"x", "y">>
 N2 == <<"x">>
 =============================================================================
